@@ -86,6 +86,23 @@ def run(ctx):
             ctx.violated(r1, fit, "opt.minimize(...)", "the optimiser does not receive (twice_nll, data, pdf, init_pars, par_bounds, fixed_vals)", found=str(names))
     except (Undecided, KeyError) as e:
         ctx.unrecognised(r1, fit, "fit", f"not interpretable: {e}")
+    # an explicit mask that frees every parameter is a mask, not "no mask"; no mask at all means the model's own
+    for lab, mask, want_fixed in (("explicit all-False mask", [False, False, False], []), ("no mask", None, [(1, "i1")])):
+        try:
+            rec.clear()
+            cfgo = Obj("config")
+            env = {"data": Obj("data"), "pdf": Obj("pdf", {"config": cfgo}), "init_pars": list(i), "par_bounds": Obj("bounds"), "fixed_params": mask, "kwargs": {}, "twice_nll": Obj("twice_nll")}
+            ext1 = {".minimize": minimize, "_validate_fit_inputs": lambda a, k: None, ".suggested_fixed": lambda r_, a, k: [False, True, False], ".suggested_init": lambda r_, a, k: list(i), ".suggested_bounds": lambda r_, a, k: Obj("bounds")}
+            Interp(env, {}, {}, externals=ext1).run(A.strip_docstring(fit.node.body))
+            args, kw = rec["min"]
+            fv = args[5] if len(args) > 5 else kw.get("fixed_vals")
+            got = [(int(to_poly(a).const_value()), str(to_poly(b))) for a, b in fv]
+            if got == want_fixed:
+                ctx.holds(r1, f"{MLE}::fit [{lab}]", f"fixed_vals = {got}")
+            else:
+                ctx.violated(r1, fit, f"fixed_vals [{lab}]", "the parameters held constant are not those of the mask the caller supplied (an all-False mask frees everything; only a missing mask falls back to the model's suggestion)", expected=str(want_fixed), found=str(got))
+        except (Undecided, KeyError, TypeError) as e:
+            ctx.unrecognised(r1, fit, f"fit [{lab}]", f"not interpretable: {e}")
     mc = [c for c in A.calls_in(fit.node) if A.call_attr(c) == "minimize"]
     if mc and any(k.arg is None and "kwargs" in A.names_loaded(k.value) for k in mc[0].keywords):
         ctx.holds(r1, f"{MLE}::fit", "**kwargs forwarded to the optimiser")
@@ -265,6 +282,8 @@ def run(ctx):
         ctx.holds(r3, f"{mg.relpath}::minuit_optimizer._get_minimizer", "start value of a fixed parameter is its fixed value")
     else:
         ctx.violated(r3, mg, "init_pars[index] = val", "fixed parameters do not start (and hence stay) at their fixed value in Minuit", node=mg.node)
+
+    _optimizers_interpreted(ctx, r3, repo)
 
     # ------------------------------------------------------------ R4
     table = shim_table(repo)
@@ -462,3 +481,77 @@ def _check_jax(ctx, rid, repo, rel, r, g):
                 ctx.violated(rid, fo, f"_final_objective [do_stitch={do_stitch}]", "the jitted objective does not evaluate objective(stitch([fixed, pars]), data, pdf) with the viewer [fixed_idx, variable_idx]", expected=wantv, found=f"{v}; {ev}")
         except Undecided as e:
             ctx.unrecognised(rid, fo, "_final_objective", str(e))
+
+
+def _optimizers_interpreted(ctx, rid, repo):
+    """scipy_optimizer._minimize and minuit_optimizer._get_minimizer interpreted (object model) with recording solvers:
+    what the solver is handed, per call, and that nothing of one call survives into the next."""
+    from fractions import Fraction as F_
+    from ..alg import AutoRegion, NotHandled
+    from ..objmodel import World
+    at, c = Poly.atom, Poly.const
+    errs = (Undecided, KeyError, TypeError, ValueError, IndexError, AttributeError)
+    # ---- scipy
+    sc = repo.cls(OPT + "opt_scipy.py", "scipy_optimizer")
+    try:
+        rec = []
+        w = World({"__strict__": True}, module_env={"exceptions": Obj("exceptions")})
+        w.add_class(sc)
+        inst = w.new(sc, [], {}) if False else None
+        from ..objmodel import Instance
+        inst = Instance(sc)
+        inst.attrs.update({"maxiter": at("DEFAULT_MAXITER"), "verbose": False, "tolerance": None, "solver_options": {}})
+        solver = PyFunc(lambda a, k: (rec.append((a, k)) or Obj("RESULT")), "minimizer")
+        for lab, opts in (("first fit, maxiter=M1", {"maxiter": at("M1")}), ("second fit, defaults", {}), ("third fit, solver_options ftol", {"solver_options": {"ftol": at("FTOL")}}), ("fourth fit, defaults", {})):
+            x0 = [at("x0"), at("x1"), at("x2")]
+            w.call_method(inst, "_minimize", [solver, Obj("FUNC"), x0], {"do_grad": Obj("DO_GRAD"), "bounds": Obj("BOUNDS"), "fixed_vals": [(c(1), at("v1"))], "options": dict(opts)})
+            a, k = rec[-1]
+            o = k.get("options") or {}
+            want_maxiter = "M1" if "maxiter" in opts else "DEFAULT_MAXITER"
+            want_keys = {"maxiter", "disp"} | set(opts.get("solver_options", {}))
+            got = {kk: (str(to_poly(vv)) if not isinstance(vv, bool) else vv) for kk, vv in o.items()}
+            site = f"{OPT}opt_scipy.py::scipy_optimizer._minimize [{lab}]"
+            start = [str(to_poly(x)) for x in (a[1] if len(a) > 1 else k.get("x0", []))]
+            if got.get("maxiter") != want_maxiter or set(got) != want_keys:
+                ctx.violated(rid, sc.methods["_minimize"], f"solver options [{lab}]", "the options handed to scipy.optimize.minimize are not this call's (maxiter / disp / solver_options): settings of an EARLIER fit on the same optimizer object leak into later fits", expected=f"maxiter={want_maxiter}, keys {sorted(want_keys)}", found=str(got))
+            elif start != ["x0", "v1", "x2"]:
+                ctx.violated(rid, sc.methods["_minimize"], f"start values [{lab}]", "a fixed parameter does not start at its fixed value", expected="['x0', 'v1', 'x2']", found=str(start))
+            elif inst.attrs.get("solver_options") != {}:
+                ctx.violated(rid, sc.methods["_minimize"], f"optimizer state [{lab}]", "a fit modifies the optimizer's own default solver options", found=str(inst.attrs.get("solver_options")))
+            else:
+                ctx.holds(rid, site, f"options {got}; fixed parameter starts at its value; optimizer state untouched")
+    except errs as e:
+        ctx.unrecognised(rid, sc, "scipy_optimizer._minimize", f"not interpretable: {type(e).__name__}: {e}")
+    # ---- minuit
+    mc_ = repo.cls(OPT + "opt_minuit.py", "minuit_optimizer")
+    for lab, vfix in (("fixed value inside its bounds", F_(2)), ("fixed value ON its lower bound", F_(0)), ("fixed value ON its upper bound", F_(10))):
+        try:
+            made = []
+
+            def minuit_ctor(a, k, made=made):
+                made.append((a, k))
+                return Obj("MINUIT")
+
+            region = AutoRegion()
+            region.update({"l0": F_(0), "h0": F_(10), "v0": vfix, "l1": F_(-5), "h1": F_(5), "i1": F_(1), "i0": F_(1)})
+            w = World({"__strict__": True, "Minuit": minuit_ctor}, region=region, module_env={"iminuit": Obj("iminuit"), "exceptions": Obj("exceptions")})
+            from ..objmodel import Instance
+            inst = Instance(mc_)
+            inst.attrs.update({"verbose": False, "errordef": c(1)})
+            w.add_class(mc_)
+            init_pars = [at("i0"), at("i1")]
+            bounds = [(at("l0"), at("h0")), (at("l1"), at("h1"))]
+            mobj = w.call_method(inst, "_get_minimizer", [Obj("OBJECTIVE"), init_pars, bounds], {"fixed_vals": [(c(0), at("v0"))], "do_grad": False, "par_names": None})
+            a, k = made[-1]
+            start = [str(to_poly(x)) for x in a[1]]
+            lim = mobj.attrs.get("limits")
+            fixed = mobj.attrs.get("fixed")
+            ok_lim = lim is bounds or [[str(to_poly(y)) for y in x] for x in (lim or [])] == [["l0", "h0"], ["l1", "h1"]]
+            if start != ["v0", "i1"]:
+                ctx.violated(rid, mc_.methods["_get_minimizer"], f"Minuit start values [{lab}]", "a parameter that is held constant is not started (and therefore not held) exactly at its supplied value", expected="['v0', 'i1']", found=str(start))
+            elif list(fixed or []) != [True, False] or not ok_lim:
+                ctx.violated(rid, mc_.methods["_get_minimizer"], f"Minuit limits / fixed flags [{lab}]", "Minuit is not told the bounds and the constant parameters of this fit", expected="limits = bounds, fixed = [True, False]", found=f"limits={lim} fixed={fixed}")
+            else:
+                ctx.holds(rid, f"{OPT}opt_minuit.py::minuit_optimizer._get_minimizer [{lab}]", "start = [v0, i1]; limits = bounds; fixed = [True, False]")
+        except errs as e:
+            ctx.unrecognised(rid, mc_, f"minuit_optimizer._get_minimizer [{lab}]", f"not interpretable: {type(e).__name__}: {e}")
